@@ -1,15 +1,14 @@
-\* liveness under weak fairness of the event loop, REPAIRED position (TaskEndNotifies = TRUE: the end of a task
-\* requests a cycle): EventuallyStarted must hold. 2 users, limit 1, three life-cycle events.
+\* thorough: liveness, repaired position, 2 users, limit 0/1 changed once, three life-cycle events.
 SPECIFICATION FairSpec
 CONSTANTS
   UploadIds = {1, 3}
   PerUser = 2
   MaxSlots = 2
-  InitSlots = {1}
+  InitSlots = {0, 1}
   InitTruth = {"unknown"}
   AnyInitAttr = FALSE
   Statuses = {"unknown", "offline", "away", "online"}
-  SlotBudget = 0
+  SlotBudget = 1
   AttrBudget = 0
   LifeBudget = 3
   TrackMgmt = TRUE
